@@ -14,7 +14,18 @@ LEX = ['99999999999999999999999999', '-0', '1e999', 'INF', '٣', '1_000', 'ns:q:
 
 
 def mutate(rng, doc):
-    op = rng.choice(['truncate', 'garble', 'lex', 'xsi', 'ns', 'dup', 'deep', 'swap', 'attr'])
+    op = rng.choice(['truncate', 'garble', 'lex', 'xsi', 'ns', 'dup', 'deep', 'swap', 'attr', 'rebind'])
+    if op == 'rebind':
+        # namespace declarations that shadow each other: synonymous prefixes on the root, several of them rebound on one descendant
+        syn = rng.sample(['xmlns:p="urn:t"', 'xmlns:q="urn:t"', 'xmlns="urn:t"', 'xmlns:q="urn:o"', 'xmlns:p="urn:o"'], rng.randrange(1, 4))
+        reb = rng.sample(['xmlns:p="urn:x"', 'xmlns:q="urn:y"', 'xmlns="urn:z"', 'xmlns:t2="urn:t"', 'xmlns:q="urn:t"'], rng.randrange(1, 4))
+        def uniq(ds):
+            seen = set(); out = []
+            for d in ds:
+                if d.split('=')[0] not in seen: seen.add(d.split('=')[0]); out.append(d)
+            return ' '.join(out)
+        where = rng.choice(['<t:item ', '<t:sub ', '<t:item '])
+        return doc.replace('<t:r ', '<t:r ' + uniq(syn) + ' ', 1).replace(where, where + uniq(reb) + ' ', rng.randrange(1, 3))
     if op == 'truncate': return doc[:rng.randrange(1, len(doc))]
     if op == 'garble':
         i = rng.randrange(len(doc)); return doc[:i] + rng.choice(['<', '>', '&', '\x00', '"', '</']) + doc[i + 1:]
